@@ -7,7 +7,7 @@
    not yet covered by a theorem are decided by the implementation <-> specification <->
    hardware differential run only (listed as unproved_forms in the evidence). *)
 From Coq Require Import ZArith Bool List.
-From AxV Require Import Bits Outcome Codes Iced State Rt Mem Trace Exec ExecP FrameTac FrameP RegFile RegsP ISA CodeSem IsaP FlagsP AluP.
+From AxV Require Import Bits Outcome Codes Iced State Rt Mem Trace Exec ExecP FrameTac FrameP RegFile RegsP ByteStore ISA CodeSem IsaP OperandP FlagsP RmP AluP AluRmP AluMemP.
 From AxG Require Import Flags Regs Operand Helpers Dispatch Frame I_add I_and I_sub I_cmp I_xor.
 Local Open Scope Z_scope.
 
@@ -103,6 +103,52 @@ Theorem C02_xor_rm64_r64 : forall c i s,
   exists s', instr_xor_rm64_r64 c i s = (Ok tt, s') /\ isa_exec (SAlu XOR 64) i s = IDone s' 0.
 Proof. exact xor_rm64_r64_refines. Qed.
 
+(* the same five operations with a register destination and a register OR MEMORY source
+   (r64, r/m64): result and flags are the specification's; the step fails exactly when the
+   specification's load of the source faults, and nothing has changed then.
+   [alu_refines c i s op run] unfolds to: isa_exec (SAlu op 64) i s = IDone s' 0 -> run = (Ok tt, s');
+   = IFault FMem -> exists e, run = (Err e, s); no other fault. *)
+Theorem C02_alu_r64_rm64 : forall c i s,
+  wf_regs s -> Inv (mem s) -> 0 <= rflags s < 2 ^ 63 -> i_op_count i = 2 ->
+  i_op_kind i 0 = OK_Register -> is_gpr64 (i_op_register i 0) = true -> rm64_shape i 1 ->
+  (i_code i = C_Add_r64_rm64 -> alu_refines i s ADD (instr_add_r64_rm64 c i s)) /\
+  (i_code i = C_Sub_r64_rm64 -> alu_refines i s SUB (instr_sub_r64_rm64 c i s)) /\
+  (i_code i = C_Cmp_r64_rm64 -> alu_refines i s CMP (instr_cmp_r64_rm64 c i s)) /\
+  (i_code i = C_And_r64_rm64 -> alu_refines i s AND (instr_and_r64_rm64 c i s)).
+Proof.
+  intros c i s Hwf HI Hrf Hn K0 H0 Hs. repeat split; intros Ec.
+  - exact (add_r64_rm64_refines c i s Hwf HI Hrf Hn K0 H0 Hs Ec).
+  - exact (sub_r64_rm64_refines c i s Hwf HI Hrf Hn K0 H0 Hs Ec).
+  - exact (cmp_r64_rm64_refines c i s Hwf HI Hrf Hn K0 H0 Hs Ec).
+  - exact (and_r64_rm64_refines c i s Hwf HI Hrf Hn K0 H0 Hs Ec).
+Qed.
+
+Theorem C02_xor_r64_rm64 : forall c i s,
+  wf_regs s -> Inv (mem s) -> 0 <= rflags s < 2 ^ 64 -> i_op_count i = 2 ->
+  i_op_kind i 0 = OK_Register -> is_gpr64 (i_op_register i 0) = true -> rm64_shape i 1 ->
+  i_code i = C_Xor_r64_rm64 -> refines i s (SAlu XOR 64) (instr_xor_r64_rm64 c i s).
+Proof. exact xor_r64_rm64_refines. Qed.
+
+(* read-modify-write with a MEMORY destination (m64, r64): completes exactly when the
+   specification does, with its flags and its stored bytes.  When the load faults nothing has
+   changed; when only the store is refused (writable bit missing) the emulator has already
+   updated the flag word - [rmw_refines] says so: exists e x, run = (Err e, s) \/ run = (Err e,
+   set_rflags s x) - registers and memory are untouched in both cases. *)
+Theorem C02_alu_m64_r64 : forall c i s,
+  wf_regs s -> Inv (mem s) -> 0 <= rflags s < 2 ^ 63 -> i_op_count i = 2 ->
+  i_op_kind i 0 = OK_Memory -> wf_mem_instr i -> i_op_kind i 1 = OK_Register -> is_gpr64 (i_op_register i 1) = true ->
+  (i_code i = C_Add_rm64_r64 -> rmw_refines i s ADD (instr_add_rm64_r64 c i s)) /\
+  (i_code i = C_Sub_rm64_r64 -> rmw_refines i s SUB (instr_sub_rm64_r64 c i s)) /\
+  (i_code i = C_Cmp_rm64_r64 -> rmw_refines i s CMP (instr_cmp_rm64_r64 c i s)) /\
+  (i_code i = C_And_rm64_r64 -> rmw_refines i s AND (instr_and_rm64_r64 c i s)).
+Proof.
+  intros c i s Hwf HI Hrf Hn K0 Hm K1 H1. repeat split; intros Ec.
+  - exact (add_m64_r64_refines c i s Hwf HI Hrf Hn K0 Hm K1 H1 Ec).
+  - exact (sub_m64_r64_refines c i s Hwf HI Hrf Hn K0 Hm K1 H1 Ec).
+  - exact (cmp_m64_r64_refines c i s Hwf HI Hrf Hn K0 Hm K1 H1 Ec).
+  - exact (and_m64_r64_refines c i s Hwf HI Hrf Hn K0 Hm K1 H1 Ec).
+Qed.
+
 Print Assumptions cond_matches_sdm.
 Print Assumptions C02_set_flags_64.
 Print Assumptions C02_set_flags_8.
@@ -112,3 +158,6 @@ Print Assumptions C02_and_rm64_r64.
 Print Assumptions C02_sub_rm64_r64.
 Print Assumptions C02_cmp_rm64_r64.
 Print Assumptions C02_xor_rm64_r64.
+Print Assumptions C02_alu_r64_rm64.
+Print Assumptions C02_xor_r64_rm64.
+Print Assumptions C02_alu_m64_r64.
